@@ -19,14 +19,14 @@ import (
 
 // e1Profile selects workload weights per property.
 type e1Profile struct {
-	prop         string
-	attackWeight int
-	steps        [2]int // min, extra
-	concurrent   bool
-	restartPct   int
-	quickCases   int
+	prop          string
+	attackWeight  int
+	steps         [2]int // min, extra
+	concurrent    bool
+	restartPct    int
+	quickCases    int
 	thoroughCases int
-	rule         string
+	rule          string
 }
 
 var e1Profiles = map[string]e1Profile{
@@ -276,6 +276,8 @@ func runE1Case(r *verifkit.Run, pf e1Profile, id string, rng *rand.Rand) map[str
 	cs.counter["late_conflicting_for_committed"] += int64(g.lateForCommitted)
 	cs.counter["forged_list_copies_delivered"] += int64(g.forgedCopies)
 	cs.counter["c11_views_judged"] += int64(mo.c11.viewsJudged)
+	cs.counter["c11_jump_ahead_views_judged"] += int64(mo.c11.jumpAheadsJudged)
+	cs.counter["c11_jump_ahead_views_judged_for_justifying_votes"] += int64(mo.c11.jumpAheadsLive)
 	cs.counter["c11_updates_judged"] += int64(mo.c11.updatesJudged)
 	cs.counter["c11_quiescence_comparisons"] += int64(mo.c11.quiescences)
 	cs.counter["c11_rounds_ended_by_harness"] += int64(len(mo.c11.endedRounds))
